@@ -531,6 +531,15 @@ structure SProgram where
   globals : List (Nat × Expr)
   funs : List FunDef
 
+/-- `ConstValue::vtype` -/
+def constVtype : Val → Ty
+  | .unit => .unit | .int _ => .int | .bool _ => .bool | .str _ => .string | .id _ => .id
+  | .enum n _ => .enum n | .struct n _ => .struct n | .ident _ => .never
+  | .none => .optional .never | .some v => .optional (constVtype v)
+  | .ok v => .result (constVtype v) .never | .err v => .result .never (constVtype v)
+
+def Val.vtype (v : Val) : Ty := constVtype v
+
 /-- `expression_value` for the literal forms (global lets) -/
 def constValue (enums : List (Nat × List Nat)) (structs : List (Nat × List (Nat × Ty))) : Nat → Expr → Option Val
   | 0, _ => Option.none
@@ -546,18 +555,18 @@ def constValue (enums : List (Nat × List Nat)) (structs : List (Nat × List (Na
     | Option.none => Option.none
     | Option.some (_, vs) => (indexOf? vs variant).map (fun i => .enum name (Int.ofNat i))
   | n + 1, .struct name fields srcs =>
-    if !srcs.isEmpty || !(structs.any (·.1 == name)) then Option.none else
-    (fields.foldl (fun acc (f : Nat × Expr) => match acc, constValue enums structs n f.2 with
-      | Option.some fs, Option.some v => Option.some (setField fs f.1 v)
-      | _, _ => Option.none) (Option.some [])).map (.struct name)
+    -- checked like a struct literal in a function body: no duplicate field, every field of the
+    -- definition given, only fields of the definition, every value of the declared type
+    if !srcs.isEmpty then Option.none else
+    match structs.find? (·.1 == name) with
+    | Option.none => Option.none
+    | Option.some (_, d) =>
+      if findDup (fields.map (·.1)) || !(d.all fun f => fields.any (·.1 == f.1)) then Option.none else
+      (fields.foldl (fun acc (f : Nat × Expr) => match acc, constValue enums structs n f.2, d.find? (·.1 == f.1) with
+        | Option.some fs, Option.some v, Option.some (_, ft) =>
+          if (constVtype v).fits ft then Option.some (setField fs f.1 v) else Option.none
+        | _, _, _ => Option.none) (Option.some [])).map (.struct name)
   | _ + 1, _ => Option.none
-
-/-- `ConstValue::vtype` -/
-def Val.vtype : Val → Ty
-  | .unit => .unit | .int _ => .int | .bool _ => .bool | .str _ => .string | .id _ => .id
-  | .enum n _ => .enum n | .struct n _ => .struct n | .ident _ => .never
-  | .none => .optional .never | .some v => .optional v.vtype
-  | .ok v => .result v.vtype .never | .err v => .result .never v.vtype
 
 def directDeps (fs : List (Nat × Ty)) : List Nat :=
   fs.filterMap fun | (_, .struct n) => Option.some n | _ => Option.none
